@@ -321,3 +321,64 @@ class RegridRefusal:
             yield self
         finally:
             PsiContour.regrid = real
+
+
+class AddressSim:
+    """The allocator as a seam: `id()` as seen by hypnotoad's modules.
+
+    CPython is free to place a new object at the address of one that has been freed, so
+    an id() that outlives its object is a source of nondeterminism.  While installed,
+    every loaded hypnotoad module resolves `id` to this simulator, which hands the
+    identity of a *dead* weak-referenceable object to the next new object of the same
+    type (always: the adversarial but legal allocator).  Objects that are alive at the
+    same time never share an identity.  The unchanged tree calls id() nowhere, so the seam
+    is inert there."""
+
+    def __init__(self):
+        self.fake = {}      # real id -> identity handed out, for live objects
+        self.free = {}      # type -> identities of dead objects
+        self.reused = 0
+        self.calls = 0
+
+    def id(self, obj):
+        import builtins
+        import weakref
+
+        self.calls += 1
+        real = builtins.id(obj)
+        if real in self.fake:
+            return self.fake[real]
+        try:
+            pool = self.free.get(type(obj))
+            ident = real
+            if pool:
+                ident = pool.pop()
+                self.reused += 1
+            weakref.finalize(obj, self._died, real, type(obj), ident)
+            self.fake[real] = ident
+            return ident
+        except TypeError:  # not weak-referenceable: the real address
+            return real
+
+    def _died(self, real, typ, ident):
+        self.fake.pop(real, None)
+        self.free.setdefault(typ, []).append(ident)
+
+    @contextlib.contextmanager
+    def installed(self):
+        import sys
+
+        mods = [m for name, m in list(sys.modules.items())
+                if (name == "hypnotoad" or name.startswith("hypnotoad.")) and m is not None]
+        saved = []
+        for m in mods:
+            saved.append((m, m.__dict__.get("id", AddressSim)))
+            m.__dict__["id"] = self.id
+        try:
+            yield self
+        finally:
+            for m, old in saved:
+                if old is AddressSim:
+                    m.__dict__.pop("id", None)
+                else:
+                    m.__dict__["id"] = old
